@@ -114,8 +114,9 @@ def run_lr_case(case):
                 try:
                     m.parse(text)
                     res[text] = 'ok'
-                except FailedParse:
-                    res[text] = 'fail'
+                except FailedParse as e:
+                    # (a parse that ran out of stack is reported by the engine as a parse failure: here it is what it is)
+                    res[text] = 'RecursionError' if 'recursion limit exceeded' in str(getattr(e, 'msg', '')) else 'fail'
                 except RecursionError:
                     res[text] = 'RecursionError'
                 except TO:
